@@ -19,6 +19,7 @@ def register(reg):
     register_hash(reg)
     register_env(reg)
     register_paths(reg)
+    register_codecs(reg)
 
     @reg.specfun("as_bytes")
     def as_bytes(ex, st, args, cx):
@@ -355,3 +356,39 @@ def register_paths(reg):
     def cfg_item(ex, st, args, cx):
         """value a configuration resolves a (dotted) path to: the outcome of Config.__getitem__"""
         return SV(ex.w.fun("spec_cfg_item", "V", "str", "V")(args[0].e, ex.o.s(args[1])))
+
+
+def register_codecs(reg):
+    @reg.specfun("lower")
+    def lower(ex, st, args, cx):
+        return ex.o.str_(ex.w.fun("str_lower", "str", "str")(ex.o.s(args[0])))
+
+    @reg.specfun("b64")
+    def b64(ex, st, args, cx):
+        w = ex.w
+        f = w.fun("b64enc", ByteSeq, ByteSeq)
+        g = w.fun("b64dec", ByteSeq, ByteSeq)
+        y = ex.o.y(args[0])
+        st.assume(g(f(y)) == y)
+        st.assume(w.fun("b64_ok", ByteSeq, "bool")(f(y)))
+        st.assume(w.fun("is_utf8", ByteSeq, "bool")(f(y)))
+        return ex.o.bytes_(f(y))
+
+    @reg.specfun("utf8_text")
+    def utf8_text(ex, st, args, cx):
+        w = ex.w
+        f = w.fun("utf8", "str", ByteSeq)
+        g = w.fun("utf8_dec", ByteSeq, "str")
+        y = ex.o.y(args[0])
+        st.assume(z3.Implies(w.fun("is_utf8", ByteSeq, "bool")(y), f(g(y)) == y))
+        return ex.o.str_(g(y))
+
+    @reg.specfun("hex_text")
+    def hex_text(ex, st, args, cx):
+        w = ex.w
+        f = w.fun("hex_enc", ByteSeq, "str")
+        g = w.fun("hex_dec", "str", ByteSeq)
+        y = ex.o.y(args[0])
+        st.assume(g(f(y)) == y)
+        st.assume(w.fun("is_hex", "str", "bool")(f(y)))
+        return ex.o.str_(f(y))
